@@ -26,9 +26,9 @@ TECHNIQUE = ('Coq proof: vm_compute-checked exactness of the quadrature tables r
              'checkers run on the exact rational value of every runtime table (complete configuration set); lifting theorems over R '
              'for every affine element; PrimFloat correspondence for the geometric kernels')
 GEN = ['Tab_TriQuad', 'Tab_FsGeom']
-TARGETS = ['model/M_C03.vo', 'proofs/L_C03sn.vo', 'proofs/L_C03cert.vo', 'proofs/L_C03tab.vo', 'proofs/L_C03lift.vo']
+TARGETS = ['model/M_C03.vo', 'proofs/L_C03sn.vo', 'proofs/L_C03cert.vo', 'proofs/L_C03tab.vo', 'proofs/L_C03lift.vo', 'proofs/L_C03int.vo', 'proofs/L_C03div.vo']
 COQ_FILES = ['base/Num.v', 'model/M_C03.v', 'proofs/L_C03sn.v', 'proofs/L_C03cert.v', 'proofs/L_C03tab.v', 'proofs/L_C03lift.v',
-             'props/P_C03.v']
+             'proofs/L_C03int.v', 'proofs/L_C03div.v', 'props/P_C03.v']
 TRUSTED = ['Coq 8.16.1 kernel + vm_compute (no native_compute)',
            'tools/vlib/tab_c03.py: extraction of the tabulated rules (decimal source text -> exact rationals) and of the index structure of the geometric kernels from the Python AST, fail closed',
            'harness: exact binary64 -> (mantissa, exponent) conversion of every runtime table, sharding of certificates, de-duplication of byte-identical tables',
